@@ -9,7 +9,7 @@ from symx.vloop import Script
 from .common import MC, P, Q, RecTransport, loop_clean, new_loop
 
 PROPERTY = "C15"
-BUDGET_S = {"quick": 600, "thorough": 2400}
+BUDGET_S = {"quick": 900, "thorough": 7200}
 STUBS = ["event loop: VirtualLoop (symbolic ticks; requests injected at solver-chosen instants/iterations, also exactly when a collection window closes)", "struct/bytes lowering"]
 ASSUMPTIONS = [
     "histories of at most K queue requests (plus one burst) from an idle announcer; collection timeout 0 or 5 ms; gaps 0..20 ms symbolic",
